@@ -1831,7 +1831,7 @@ class Symex:
             if attr == "items":
                 return _ItemsView(o.items())
             if attr == "keys":
-                return list(o.keys())
+                return _KeysView(o.keys())
             if attr == "values":
                 return list(o.values())
             if attr == "get":
@@ -1961,6 +1961,45 @@ class _ItemsView(list):
         return not self.__eq__(o)
 
     __hash__ = None
+
+
+
+class _KeysView(list):
+    """``dict.keys()``: a list for iteration/indexing by the evaluator, compared like a set with other views/sets."""
+    __hash__ = None
+
+    def _setlike(self, o):
+        return isinstance(o, (_KeysView, set, frozenset))
+
+    def __eq__(self, o):
+        if self._setlike(o):
+            return len(set(self)) == len(set(o)) and all(k in o for k in self)
+        return list.__eq__(self, o)
+
+    def __ne__(self, o):
+        r = self.__eq__(o)
+        return r if r is NotImplemented else not r
+
+    def __le__(self, o):
+        return all(k in o for k in self) if self._setlike(o) else list.__le__(self, o)
+
+    def __ge__(self, o):
+        return all(k in self for k in o) if self._setlike(o) else list.__ge__(self, o)
+
+    def __lt__(self, o):
+        return (self.__le__(o) and not self.__eq__(o)) if self._setlike(o) else list.__lt__(self, o)
+
+    def __gt__(self, o):
+        return (self.__ge__(o) and not self.__eq__(o)) if self._setlike(o) else list.__gt__(self, o)
+
+    def __and__(self, o):
+        return {k for k in self if k in o}
+
+    def __or__(self, o):
+        return set(self) | set(o)
+
+    def __sub__(self, o):
+        return {k for k in self if k not in o}
 
 
 class _DefaultDict(dict):
